@@ -13,7 +13,7 @@ META = {
              'get_docstr() == t, the parsed docstring value agrees modulo block indent, tree in sync. (C) put_line_comment(c)/get_line_comment() on simple statements, block '
              'headers, orelse/finalbody, full both ways, None deletes. A cell is (round-trip kind, node class) / (accessor, host, alphabet classes in the text). After put_line_comment the statement and every enclosing block must report the same own_src()/bloc as a fresh parse of the new text (their answers were read, hence cached, before the write).'),
     'budget': {'quick': 45, 'thorough': 900},
-    'floors': {'quick': {'comment_enclosing_source_readbacks': 4000, 'round_trips': 8000, 'docstr_roundtrips': 5000, 'comment_roundtrips': 4000, 'own_src_parsed': 2500},
+    'floors': {'quick': {'comment_enclosing_source_readbacks': 4000, 'round_trips': 8000, 'docstr_roundtrips': 5000, 'comment_roundtrips': 1200, 'own_src_parsed': 2500},
                'thorough': {'comment_enclosing_source_readbacks': 25000, 'round_trips': 200000, 'docstr_roundtrips': 200000, 'comment_roundtrips': 25000, 'own_src_parsed': 60000}},
     'assumptions': ['docstring read-back is claimed only for texts whose first line does not start with whitespace (property restriction)',
                     'comment read-back (full=False) is claimed for texts without leading/trailing whitespace, newline or leading "#"'],
